@@ -26,7 +26,7 @@ def adler (b : Bytes) : Nat :=
   r.2 * 65536 + r.1
 
 def descStr (d : Desc) : String :=
-  s!"{kindStr d}:cl={match d.cl with | some v => toString v | none => "-"}:ncl={d.ncl}:te={if d.te then 1 else 0}:v={d.vmaj}.{d.vmin}:m={Bytes.toHex d.method}:u={Bytes.toHex d.uri}:ck={adler d.body}"
+  s!"{kindStr d}:cl={match d.cl with | some v => toString v | none => "-"}:ncl={d.ncl}:te={if d.te then 1 else 0}:v={d.vmaj}.{d.vmin}:m={Bytes.toHex d.method}:u={Bytes.toHex d.uri}:p={if d.persistent then 1 else 0}:ck={adler d.body}"
 
 def siteStr : Site → String
   | .parse => "parse" | .method => "method" | .url => "url" | .version => "version" | .header => "header"
@@ -41,6 +41,7 @@ def finStr : Fin → String
   | .rej s st w => s!"rej:{s}:{st}:{siteStr w}"
   | .connect s h => s!"connect:{s}:{h}"
   | .throws _ => "throw"
+  | .closing e => s!"closing:{e}"
   | .fuel => "fuel"
 
 def handle (line : String) : String :=
